@@ -62,6 +62,7 @@ def check(ctx, report):
     report.rule('C02.R3', 'converters/validators of objects built from parsed values cannot raise undocumented errors')
     table_shape(ctx, report)
     eager_decoding(ctx, report)
+    absent_directive_defaults(ctx, report)
     report.rule('C02.R4', 'risky operations on input derived values are guarded or converted')
     deep = Interp(model, deep=True)
     es = Escape(model, deep)
@@ -232,7 +233,9 @@ def constructed_objects(ctx, report):
                 ext_raises = external_table()['raises'].get(cd) if cd else None
                 if ext_raises and src is not None:
                     applied = [show(src.op.args.get(a)) for a in ('item_class', 'converter') if src.op.args.get(a) is not None]
-                    if not any(cd in x for x in applied):
+                    # already converted by the same function, or by a constructor of the same library module (ipaddress.IPv4Network
+                    # before ipaddress.ip_network): the converter then receives an object it passes through
+                    if not any(cd in x or (cd.split('.')[0] + '.') in x for x in applied):
                         report.add('C02.R3', '%s@converter[%s]' % (c.resolve('_parse').construct, fld.name),
                                    'parsed value %s reaches the converter %s of %s.%s unconverted: %s is raised inside the generated __init__, outside every handler' % (
                                        src.key, cd, k.name, fld.name, ' / '.join(x.split('.')[-1] for x in ext_raises)))
@@ -351,3 +354,31 @@ def eager_decoding(ctx, report):
         report.add('C02.R4', f.construct + '@eager-decode',
                    'the loaded message is not fully decoded (<message>.native) inside the try block: decoding errors of inner fields are raised '
                    'later, outside the handler that turns them into InvalidValue / NotEnoughData')
+
+
+def absent_directive_defaults(ctx, report):
+    """FieldValueMultiple._parse_basic_params hands the attribute default to the constructor when a directive is absent. A
+    default of None on a field whose validator is not optional(...) makes the converter / validator raise TypeError for a
+    header that simply lacks the directive; a mandatory directive must have no default (absence is then InvalidValue)"""
+    model = ctx.model
+    report.rule('C02.R6', 'multi-directive values: a None default is accepted by the field\'s own validator (absent directive does not raise TypeError)')
+    base = model.try_cls('FieldValueMultiple')
+    if base is None:
+        report.error('C02.R6: FieldValueMultiple vanished')
+        return
+    n = 0
+    for c in model.all_subclasses(base):
+        if not c.has_attrs():
+            continue
+        for fld in c.attrs_fields():
+            d, v = fld.default_node, fld.validator_node
+            if fld.owner is not c or not (isinstance(d, ast.Constant) and d.value is None):
+                continue
+            n += 1
+            report.count('C02.R6')
+            if v is not None and 'optional' not in ast.unparse(v):
+                report.add('C02.R6', '%s@default[%s]' % (c.construct, fld.name),
+                           'the directive %s defaults to None but its validator (%s) does not accept None: a value without that directive raises '
+                           'TypeError out of the parser' % (fld.name, ast.unparse(v)[:60]))
+    if n < 10:
+        report.error('C02.R6: only %d None-defaulted directives found (anchor moved)' % n)
